@@ -188,7 +188,7 @@ func genC11(r *core.Rand, run int) *MuxScenario {
 			case 0:
 				op = RegOp{Kind: "regsvc", Target: "local", Service: svcMessaging}
 			case 1:
-				op = RegOp{Kind: "regconn", Target: r.PickS("b1", "b2", "b3"), Fail: r.PickS("refl:0", "refl:1", "refl:2", "refl:3", "cancel", "refl:1c", "refl:2c", "refl:3c", "refl:0e", "refl:1e", "refl:2e")}
+				op = RegOp{Kind: "regconn", Target: r.PickS("b1", "b2", "b3"), Fail: r.PickS("refl:0", "refl:1", "refl:2", "refl:3", "cancel", "refl:1c", "refl:2c", "refl:3c", "refl:0e", "refl:1e", "refl:2e", "refl:end", "refl:end")}
 				if r.Chance(1, 2) {
 					op.Adv = [][]string{{tsvc}, {svcFiles}, {svcMessaging}, {tsvc, svcMessaging}}[r.Intn(4)]
 				}
